@@ -35,7 +35,20 @@ func emitReadSites(t *srcTree) {
 				return true
 			}
 			path, name, q := fn.f.calleeOf(call)
-			if !q || !readFuncs[path][name] {
+			if !q {
+				// a method call `<ctxt>.Import(path, srcDir, mode)` / `.ImportDir(dir, mode)` in a file that imports go/build: the
+				// same directory look-up as build.Import, through a build.Context value
+				if sel, ok := call.Fun.(*ast.SelectorExpr); ok && (sel.Sel.Name == "Import" && len(call.Args) == 3 || sel.Sel.Name == "ImportDir" && len(call.Args) == 2) {
+					for _, ip := range fn.f.imports {
+						if ip == "go/build" {
+							out = append(out, site{filepath.ToSlash(filepath.Dir(fn.f.rel)), fn.name, "build.Context." + sel.Sel.Name})
+							break
+						}
+					}
+				}
+				return true
+			}
+			if !readFuncs[path][name] {
 				return true
 			}
 			callee := filepath.Base(path) + "." + name
